@@ -33,8 +33,6 @@ class InterpMixin(object):
         if isinstance(v, SBool):
             return self.branch(v.term)
         if isinstance(v, SInt):
-            if v.bv is not None:
-                return self.branch(v.bv != 0)
             return self.branch(v.term != 0)
         if isinstance(v, SBytes):
             if v.elems is not None:
@@ -709,7 +707,7 @@ class InterpMixin(object):
             f = self.fix_bytes(it)
             if f is None:
                 self.unsupported("iteration over bytes of symbolic length")
-            return [SInt(z3.BV2Int(e), bv=e) for e in f.elems]
+            return [SInt(e, nbits=8) for e in f.elems]
         if isinstance(it, SStr):
             k = self.known_len(it)
             if k is None:
